@@ -652,7 +652,10 @@ pub fn pset_byzantine(p: &mut Prng, reference: &[u8]) -> Option<Delivery> {
                 return None;
             }
             let pr = p.pick(&m.pairs);
-            Some(vec![Edit { label: "byz.dupkey".into(), pos: pr.end, remove: 0, insert: reference[pr.start..pr.end].to_vec() }])
+            // the copy lands right after the original, or after any later pair of the same map
+            let later: Vec<usize> = m.pairs.iter().filter(|x| x.end >= pr.end).map(|x| x.end).collect();
+            let at = if p.coin() { pr.end } else { *p.pick(&later) };
+            Some(vec![Edit { label: "byz.dupkey".into(), pos: at, remove: 0, insert: reference[pr.start..pr.end].to_vec() }])
         }
         1 => {
             // a mandatory global pair dropped
